@@ -46,7 +46,26 @@ pub fn run(ctx: &Ctx, rec: &mut Recorder) -> Result<(), String> {
             continue;
         }
         let mut r = Rng::derive(ctx.seed, 0xD0C, pno);
-        let prog = docgen::gen_program(&mut r, rich, &classes);
+        let mut prog = docgen::gen_program(&mut r, rich, &classes);
+        // program 1 of the structural checks is always a long document (several object streams),
+        // program 2 always re-uses one image resource name on every page
+        if (flavor == "c02" || flavor == "c03") && (pno == 1 || pno == 2) {
+            for attempt in 1..400u64 {
+                let pages = prog["pages"].as_array().map(|a| a.len()).unwrap_or(0);
+                let shared = prog["pages"].as_array().map(|a| a.iter().filter(|p| p["images"].as_array().map(|i| i.iter().any(|x| x["name"] == "Chart")).unwrap_or(false)).count()).unwrap_or(0);
+                if (pno == 1 && pages >= 100) || (pno == 2 && shared >= 2 && pages < 100) {
+                    break;
+                }
+                r = Rng::derive(ctx.seed, 0xD0C, pno + attempt * 1_000_003);
+                prog = docgen::gen_program(&mut r, rich, &classes);
+            }
+        }
+        if prog["pages"].as_array().map(|a| a.len()).unwrap_or(0) >= 100 {
+            rec.count("programs_with_100_or_more_pages");
+        }
+        if prog["pages"].as_array().map(|a| a.iter().filter(|p| p["images"].as_array().map(|i| i.iter().any(|x| x["name"] == "Chart")).unwrap_or(false)).count()).unwrap_or(0) >= 2 {
+            rec.count("programs_reusing_one_image_name_across_pages");
+        }
         let progfile = format!("prog-{pno}.json");
         crate::rec::write_file(&dir.join(&progfile), serde_json::to_string(&prog).unwrap().as_bytes());
         let mut cfgs: Vec<usize> = (0..all_cfgs.len()).collect();
